@@ -133,6 +133,23 @@ class Prober:
         self.table = self.sk.lhh_count if self.kind == "hh" else self.sk.cms
         self.cache = {}
 
+    via = "add"  # entry point used for the probing add: add | ulist | udict | ngram | ndarray
+
+    def _probe_add(self, key):
+        v = self.via
+        if v == "add":
+            self.sk.add(key, 1)
+        elif v == "ulist":
+            self.sk.update([key])
+        elif v == "udict":
+            self.sk.update({key: 1})
+        elif v == "ngram":
+            self.sk.add_ngram(key, max(1, len(key)))
+        elif v == "ndarray":
+            self.sk.update(np.array([key], dtype="S8"))  # TypeError on a tree that does not accept arrays of keys
+        else:
+            raise ValueError(v)
+
     def cells(self, key: bytes):
         c = self.cache.get(key)
         if c is not None:
@@ -142,7 +159,7 @@ class Prober:
         if self.kind == "hh":
             self.sk.lhh[:] = 0
             self.sk.key_lens[:] = 0
-        self.sk.add(key, 1)
+        self._probe_add(key)
         cols = []
         for r in range(t.shape[0]):
             nz = np.flatnonzero(t[r])
